@@ -100,11 +100,13 @@ __CPROVER_ensures(parser->state == ON_QUERY_STRING ==> str->len > 0 && str->ptr[
 __CPROVER_ensures(NOT_RAISED)
 ;
 
-/* ------------------------------------------------------------------ query: everything after the '?' the cursor stands on.
- * The precondition "the cursor stands on a '?'" is discharged where the state machine hands over (unit init_from_uri_str). */
+/* ------------------------------------------------------------------ query: everything after the first byte of the remaining text.
+ * That this byte is the '?' is a postcondition of the state that hands over (s_parse_authority / s_parse_path: "state ==
+ * ON_QUERY_STRING ==> the cursor stands on a '?'"); it is not restated as a precondition here because the state-machine
+ * unit cannot read through the loop-havocked cursor pointer (CBMC value sets), see overlay/uri.loops. */
 static void s_parse_query_string(struct uri_parser *parser, struct aws_byte_cursor *str)
 PARSER_REQ
-__CPROVER_requires(str->len > 0 && str->ptr[0] == '?')
+__CPROVER_requires(str->len > 0)
 __CPROVER_assigns(parser->state, parser->uri->path_and_query, parser->uri->query_string, str->ptr, str->len)
 __CPROVER_ensures(parser->state == FINISHED && STR_AT(N_))
 __CPROVER_ensures(OLD(parser->uri->path_and_query.ptr) != NULL ? SUB_SAME(parser->uri->path_and_query)
@@ -149,9 +151,13 @@ __CPROVER_ensures(AU_ERR ? g_raise_count > OLD(g_raise_count) && g_last_error ==
  * Both callers hand over a zeroed aws_uri whose uri_str holds the text.  Success: the text is kept and every component
  * view is NULL/0 or lies inside uri_str[0, len) ("inside the URI object's own copy of the text").  Failure: MALFORMED was
  * raised, the text is released and the whole object is zeroed.  Termination: the state number increases in every step. */
+#define URI_TEXT_MAX ((size_t)1 << 48)
 static int s_init_from_uri_str(struct aws_uri *uri)
 __CPROVER_requires(__CPROVER_is_fresh(uri, sizeof(*uri)))
 __CPROVER_requires(BUF_FIELDS_OK(&uri->uri_str))
+/* tool limit, not a property of the code: CBMC's pointer encoding (8 object bits, signed 56-bit offsets) mis-handles
+ * objects of 2^55 bytes and more; the text is assumed shorter than 2^48 bytes */
+__CPROVER_requires(uri->uri_str.capacity <= URI_TEXT_MAX)
 __CPROVER_requires(ALL_UVIEWS_ZERO(uri) && uri->port == 0)
 __CPROVER_requires(!g_mc_on)
 __CPROVER_assigns(*uri, g_last_error, g_raise_count, g_mc_n, __CPROVER_object_whole(g_mc), g_pu.ptr, g_pu.len, g_pu.calls)
@@ -160,6 +166,29 @@ __CPROVER_ensures(RET == AWS_OP_SUCCESS || RET == AWS_OP_ERR)
 __CPROVER_ensures(RET == AWS_OP_SUCCESS ==> uri->uri_str.buffer == OLD(uri->uri_str.buffer) && uri->uri_str.len == OLD(uri->uri_str.len) &&
                   uri->uri_str.capacity == OLD(uri->uri_str.capacity) && uri->uri_str.allocator == OLD(uri->uri_str.allocator) &&
                   uri->self_size == OLD(uri->self_size) && uri->allocator == OLD(uri->allocator))
+__CPROVER_ensures(RET == AWS_OP_SUCCESS ==> ALL_UVIEWS_IN(uri))
+__CPROVER_ensures(RET == AWS_OP_SUCCESS ==> NOT_RAISED)
+__CPROVER_ensures(RET == AWS_OP_ERR ==> g_raise_count > OLD(g_raise_count) && g_last_error == AWS_ERROR_MALFORMED_INPUT_STRING)
+__CPROVER_ensures(RET == AWS_OP_ERR ==> ALL_UVIEWS_ZERO(uri) && uri->port == 0 && uri->self_size == 0 && uri->allocator == NULL &&
+                  uri->uri_str.buffer == NULL && uri->uri_str.len == 0 && uri->uri_str.capacity == 0 && uri->uri_str.allocator == NULL)
+;
+
+
+/* ------------------------------------------------------------------ aws_uri_init_parse: copy the text, then run the state machine.
+ * Success: the object owns a copy of the text (same length, same bytes: witness g_j/g_src) and every component view lies
+ * inside that copy.  Failure: the object is zeroed (nothing to clean up). */
+int aws_uri_init_parse(struct aws_uri *uri, struct aws_allocator *allocator, const struct aws_byte_cursor *uri_str)
+__CPROVER_requires(__CPROVER_is_fresh(uri, sizeof(*uri)))
+__CPROVER_requires(allocator != NULL)
+__CPROVER_requires(CUR_OK(uri_str) && uri_str->len <= URI_TEXT_MAX)
+__CPROVER_requires(g_on ==> (g_j < uri_str->len ==> g_src == uri_str->ptr[g_j]))
+__CPROVER_requires(!g_mc_on)
+__CPROVER_assigns(*uri, g_last_error, g_raise_count, g_mc_n, __CPROVER_object_whole(g_mc), g_pu.ptr, g_pu.len, g_pu.calls)
+__CPROVER_ensures(RET == AWS_OP_SUCCESS || RET == AWS_OP_ERR)
+__CPROVER_ensures(RET == AWS_OP_SUCCESS ==> uri->self_size == sizeof(struct aws_uri) && uri->allocator == allocator &&
+                  uri->uri_str.allocator == allocator && uri->uri_str.len == uri_str->len && uri->uri_str.capacity == uri_str->len &&
+                  uri_str->len > 0 && __CPROVER_rw_ok(uri->uri_str.buffer, uri->uri_str.capacity))
+__CPROVER_ensures(g_on && RET == AWS_OP_SUCCESS && g_j < uri_str->len ==> uri->uri_str.buffer[g_j] == g_src)
 __CPROVER_ensures(RET == AWS_OP_SUCCESS ==> ALL_UVIEWS_IN(uri))
 __CPROVER_ensures(RET == AWS_OP_SUCCESS ==> NOT_RAISED)
 __CPROVER_ensures(RET == AWS_OP_ERR ==> g_raise_count > OLD(g_raise_count) && g_last_error == AWS_ERROR_MALFORMED_INPUT_STRING)
